@@ -162,5 +162,16 @@ def c07(case, diff, o, v):
                                                            or (_re.search(r"(?i)\bcast\s*\(", txt) and any(m != m.lower() for m in _re.findall(r"(?i)\bas\s+([a-z_]+)\s*\(", txt + " " + case.get("sql", ""))))):
             return "KF-30b"
         if "quote" in kinds:
-            return "KF-30d"
+            # KF-30d: one of the identifiers that got quoted is a word sqlparse's lexer takes for a keyword when it stands unquoted
+            import sqlparse
+            from sqlparse import tokens as _T
+
+            for name in set(_re.findall(r"[\"`\[]([A-Za-z_][A-Za-z_0-9]*)[\"`\]]", txt)):
+                toks = list(sqlparse.parse(name)[0].flatten())
+                if toks and toks[0].ttype is not None and (toks[0].ttype in _T.Keyword or toks[0].ttype in _T.Name.Builtin):
+                    return "KF-30d"
+            # ... or the name of a CTE written without AS: WITH w (SELECT ...) is recognised through sqlparse's function-call grouping,
+            # which a quoted name does not get
+            if _re.search(r"(?i)(\bwith|,)\s*[\"`\[]\w+[\"`\]]\s*\(\s*select\b", txt):
+                return "KF-30d"
     return None
